@@ -6,7 +6,7 @@
    Bound: versions are MAJOR.MINOR.PATCH; pre-release / build suffixes are outside the
    model (parse_version answers None for them). *)
 From Coq Require Import String.
-From LP Require Import Semver Migrate Consts SemverProofs MigrateProofs.
+From LP Require Import Semver Migrate Params MigrateParams Consts SemverProofs MigrateProofs MigrateParamsProofs.
 Import ListNotations.
 Local Open Scope N_scope.
 
@@ -177,6 +177,115 @@ Theorem C20_state_preserved : forall c now msg st st' p,
   (p = true -> kind_of c = KFactory /\ msg <> None).
 Proof. exact state_preserved. Qed.
 
+Definition ex_slots_f : slots := mkSlots None None None None None None.
+
+(* ---- parameters supplied with a factory migration: field by field ----
+   `unwrap_or o d` = the supplied value when the field was supplied, else the previous
+   one.  Code ids: additions before removals (set level); with neither supplied the set
+   of allowed ids is the previous one. *)
+Theorem C20_base_migrate_params_frame : forall p m p', base_migrate_params p m = Ok p' ->
+  cp_code_id p' = unwrap_or (cm_code_id m) (cp_code_id p) /\
+  cp_frozen p' = unwrap_or (cm_frozen m) (cp_frozen p) /\
+  cp_creation_fee p' = unwrap_or (cm_creation_fee m) (cp_creation_fee p) /\
+  cp_min_mint_price p' = unwrap_or (cm_min_mint_price m) (cp_min_mint_price p) /\
+  cp_mint_fee_bps p' = unwrap_or (cm_mint_fee_bps m) (cp_mint_fee_bps p) /\
+  cp_offset p' = unwrap_or (cm_offset m) (cp_offset p) /\
+  (forall x, In x (cp_allowed p') <->
+             (In x (cp_allowed p) \/ In x (unwrap_or (cm_add m) [])) /\ ~ In x (unwrap_or (cm_rm m) [])) /\
+  (cm_add m = None -> cm_rm m = None -> forall x, In x (cp_allowed p') <-> In x (cp_allowed p)).
+Proof. exact base_migrate_frame. Qed.
+
+Theorem C20_vending_migrate_params_frame : forall p m p', vending_migrate_params p m = Ok p' ->
+  (let c := vp_common p in let c' := vp_common p' in let cm := vm_common m in
+   cp_code_id c' = unwrap_or (cm_code_id cm) (cp_code_id c) /\
+   cp_frozen c' = unwrap_or (cm_frozen cm) (cp_frozen c) /\
+   cp_creation_fee c' = unwrap_or (cm_creation_fee cm) (cp_creation_fee c) /\
+   cp_min_mint_price c' = unwrap_or (cm_min_mint_price cm) (cp_min_mint_price c) /\
+   cp_mint_fee_bps c' = unwrap_or (cm_mint_fee_bps cm) (cp_mint_fee_bps c) /\
+   cp_offset c' = unwrap_or (cm_offset cm) (cp_offset c) /\
+   (forall x, In x (cp_allowed c') <->
+              (In x (cp_allowed c) \/ In x (unwrap_or (cm_add cm) [])) /\ ~ In x (unwrap_or (cm_rm cm) [])) /\
+   (cm_add cm = None -> cm_rm cm = None -> forall x, In x (cp_allowed c') <-> In x (cp_allowed c))) /\
+  let x := vp_ext p in let x' := vp_ext p' in let xm := vm_ext m in
+  vx_max_token_limit x' = unwrap_or (vxm_max_token_limit xm) (vx_max_token_limit x) /\
+  vx_max_per_address_limit x' = unwrap_or (vxm_max_per_address_limit xm) (vx_max_per_address_limit x) /\
+  vx_airdrop_mint_price x' = unwrap_or (vxm_airdrop_mint_price xm) (vx_airdrop_mint_price x) /\
+  vx_airdrop_mint_fee_bps x' = unwrap_or (vxm_airdrop_mint_fee_bps xm) (vx_airdrop_mint_fee_bps x) /\
+  vx_shuffle_fee x' = unwrap_or (vxm_shuffle_fee xm) (vx_shuffle_fee x).
+Proof. exact vending_migrate_frame. Qed.
+
+Theorem C20_oe_migrate_params_frame : forall p m p', oe_migrate_params p m = Ok p' ->
+  (let c := op_common p in let c' := op_common p' in let cm := om_common m in
+   cp_code_id c' = unwrap_or (cm_code_id cm) (cp_code_id c) /\
+   cp_frozen c' = unwrap_or (cm_frozen cm) (cp_frozen c) /\
+   cp_creation_fee c' = unwrap_or (cm_creation_fee cm) (cp_creation_fee c) /\
+   cp_min_mint_price c' = unwrap_or (cm_min_mint_price cm) (cp_min_mint_price c) /\
+   cp_mint_fee_bps c' = unwrap_or (cm_mint_fee_bps cm) (cp_mint_fee_bps c) /\
+   cp_offset c' = unwrap_or (cm_offset cm) (cp_offset c) /\
+   (forall x, In x (cp_allowed c') <->
+              (In x (cp_allowed c) \/ In x (unwrap_or (cm_add cm) [])) /\ ~ In x (unwrap_or (cm_rm cm) [])) /\
+   (cm_add cm = None -> cm_rm cm = None -> forall x, In x (cp_allowed c') <-> In x (cp_allowed c))) /\
+  let x := op_ext p in let x' := op_ext p' in let xm := om_ext m in
+  ox_max_token_limit x' = unwrap_or (oxm_max_token_limit xm) (ox_max_token_limit x) /\
+  ox_max_per_address_limit x' = unwrap_or (oxm_max_per_address_limit xm) (ox_max_per_address_limit x) /\
+  ox_airdrop_mint_fee_bps x' = unwrap_or (oxm_airdrop_mint_fee_bps xm) (ox_airdrop_mint_fee_bps x) /\
+  ox_airdrop_mint_price x' = unwrap_or (oxm_airdrop_mint_price xm) (ox_airdrop_mint_price x) /\
+  ox_dev_fee_address x' = unwrap_or (oxm_dev_fee_address xm) (ox_dev_fee_address x).
+Proof. exact oe_migrate_frame. Qed.
+
+(* token-merge-factory: a migration never touches code_id, the code-id list, frozen,
+   creation_fee, max_trading_offset_secs (supplied or not); the five extension fields
+   follow the message *)
+Theorem C20_tm_migrate_params_frame : forall p m p', tm_migrate_params p m = Ok p' ->
+  tp_code_id p' = tp_code_id p /\ tp_allowed p' = tp_allowed p /\ tp_frozen p' = tp_frozen p /\
+  tp_creation_fee p' = tp_creation_fee p /\ tp_offset p' = tp_offset p /\
+  let xm := tm_ext m in
+  tp_max_token_limit p' = unwrap_or (vxm_max_token_limit xm) (tp_max_token_limit p) /\
+  tp_max_per_address_limit p' = unwrap_or (vxm_max_per_address_limit xm) (tp_max_per_address_limit p) /\
+  tp_airdrop_mint_price p' = unwrap_or (vxm_airdrop_mint_price xm) (tp_airdrop_mint_price p) /\
+  tp_airdrop_mint_fee_bps p' = unwrap_or (vxm_airdrop_mint_fee_bps xm) (tp_airdrop_mint_fee_bps p) /\
+  tp_shuffle_fee p' = unwrap_or (vxm_shuffle_fee xm) (tp_shuffle_fee p).
+Proof. exact tm_migrate_frame. Qed.
+
+(* base / vending / open-edition treat a supplied message exactly like sudo UpdateParams *)
+Theorem C20_vending_migrate_params_is_sudo : forall p m, vending_migrate_params p m = vending_sudo p m.
+Proof. exact vending_migrate_is_sudo. Qed.
+Theorem C20_oe_migrate_params_is_sudo : forall p m, oe_migrate_params p m = oe_sudo p m.
+Proof. exact oe_migrate_is_sudo. Qed.
+
+(* the whole migration of a factory: cw2 info and slots stay, parameters stay without a
+   message and are the parameter half's result with one; accepted iff the gate passes
+   (own name, parsable stored version not newer than 3.16.0) and the message is acceptable *)
+Theorem C20_factory_migrate_whole : forall (P M : Type) c (upd : P -> M -> result P),
+  kind_of c = KFactory ->
+  forall now st p msg st' p',
+  factory_migrate c upd now st p msg = Ok (st', p') ->
+  st' = st /\ is_ok (migrate c now None st) = true /\
+  match msg with None => p' = p | Some m => upd p m = Ok p' end.
+Proof. exact factory_migrate_inv. Qed.
+
+Theorem C20_factory_migrate_ok_iff : forall (P M : Type) c (upd : P -> M -> result P) now st p msg,
+  is_ok (factory_migrate c upd now st p msg) = true <->
+  is_ok (migrate c now None st) = true /\
+  match msg with None => True | Some m => is_ok (upd p m) = true end.
+Proof. exact factory_migrate_ok_iff. Qed.
+
+Theorem C20_factory_gate : forall c now st, kind_of c = KFactory ->
+  (is_ok (migrate c now None st) = true <->
+   c_name st = own_name c /\
+   exists v, parse_version (c_version st) = Some v /\ ver_ltb (3, 16, 0) v = false).
+Proof. exact factory_gate. Qed.
+
+Example C20_ex_oe_migrate_keeps_unsupplied_airdrop_bps :
+  oe_factory_migrate 5 (mkState "crates.io:open-edition-factory" "3.15.0" ex_slots_f)
+    (mkOP (mkCP 7 [1; 3; 5] false (mkCoin 0 5000000001) (mkCoin 0 50000002) 1003 604804)
+          (mkOX 10005 56 9008 (mkCoin 0 100000007) 200))
+    (Some (mkOM (mkCM None None None None None None (Some 2013) None) (mkOXM None None None None None None))) =
+  Ok (mkState "crates.io:open-edition-factory" "3.15.0" ex_slots_f,
+      mkOP (mkCP 7 [1; 3; 5] false (mkCoin 0 5000000001) (mkCoin 0 50000002) 2013 604804)
+           (mkOX 10005 56 9008 (mkCoin 0 100000007) 200)).
+Proof. vm_compute. reflexivity. Qed.
+
 (* ---- non-vacuity ---- *)
 Definition ex_slots : slots := mkSlots (Some 1700000000000000000) None None None None None.
 Example C20_ex_vending_from_3_8_9 :
@@ -215,3 +324,9 @@ Print Assumptions C20_post_version.
 Print Assumptions C20_post_factory.
 Print Assumptions C20_state_preserved.
 Print Assumptions C20_semver_not_string_order.
+Print Assumptions C20_base_migrate_params_frame.
+Print Assumptions C20_vending_migrate_params_frame.
+Print Assumptions C20_oe_migrate_params_frame.
+Print Assumptions C20_tm_migrate_params_frame.
+Print Assumptions C20_factory_migrate_whole.
+Print Assumptions C20_factory_migrate_ok_iff.
